@@ -404,6 +404,21 @@ Definition resp_try_resume (st : node) (slot : N) (fr : fresh) (q : sigma1) : op
 
 Definition unstarted (slot : N) : rctx := mkRctx slot 0 TNil TNil TNil TNil TNil TNil.
 
+(** the Sigma2 of fabric [f] answering a Sigma1 with payload [s1] and ephemeral key [peer_pub]
+    ([casep.start], [compute_sigma2_signature], [sigma2_encrypt]) *)
+Definition build_sigma2 (f : fabric) (fr : fresh) (peer_pub s1 : term) : msg :=
+  let e := TNonce (fr_eph fr) in
+  let our_pub := TPub e in
+  let shared := dh e peer_pub in
+  let rrand := TNonce (fr_rand fr) in
+  let rid := TNonce (fr_rid fr) in
+  let sig := TSig (TKey (f_sk f)) (tbs (f_noc f) (f_icac f) our_pub peer_pub) in
+  let tbe := TAead (s2k (f_ipk f) rrand our_pub (h1 s1) shared) (TNum NONCE_S2)
+                   (tbe2_plain (f_noc f) (f_icac f) sig rid) in
+  mkMsg OP_SIGMA2
+        [mkField 1 KBytes rrand; mkField 2 KUint (TNonce (fr_sid fr));
+         mkField 3 KBytes our_pub; mkField 4 KBytes tbe; mkField 5 KStruct (TNum 0)] true.
+
 (** [handle_casesigma1] *)
 Definition resp_sigma1 (st : node) (slot : N) (fr : fresh) (m : msg) (q : sigma1) : rout :=
   match g1_rid q, g1_mic q with
@@ -415,19 +430,10 @@ Definition resp_sigma1 (st : node) (slot : N) (fr : fresh) (m : msg) (q : sigma1
       | None => mkRout st (RAwait3 (unstarted slot)) [status_msg SC_NOROOTS] A_R_NOFABRIC
       | Some f =>
           if negb (is_pub (g1_pub q)) then mkRout (release st slot) RDone [] A_R_BADPUB else
-          let e := TNonce (fr_eph fr) in
-          let our_pub := TPub e in
-          let shared := dh e (g1_pub q) in
-          let rrand := TNonce (fr_rand fr) in
-          let rid := TNonce (fr_rid fr) in
-          let s1 := msg_term m in
-          let sig := TSig (TKey (f_sk f)) (tbs (f_noc f) (f_icac f) our_pub (g1_pub q)) in
-          let tbe := TAead (s2k (f_ipk f) rrand our_pub (h1 s1) shared) (TNum NONCE_S2)
-                           (tbe2_plain (f_noc f) (f_icac f) sig rid) in
-          let m2 := mkMsg OP_SIGMA2
-                      [mkField 1 KBytes rrand; mkField 2 KUint (TNonce (fr_sid fr));
-                       mkField 3 KBytes our_pub; mkField 4 KBytes tbe; mkField 5 KStruct (TNum 0)] true in
-          mkRout st (RAwait3 (mkRctx slot (f_idx f) our_pub (g1_pub q) shared rid s1 (msg_term m2)))
+          let m2 := build_sigma2 f fr (g1_pub q) (msg_term m) in
+          mkRout st (RAwait3 (mkRctx slot (f_idx f) (TPub (TNonce (fr_eph fr))) (g1_pub q)
+                                     (dh (TNonce (fr_eph fr)) (g1_pub q)) (TNonce (fr_rid fr))
+                                     (msg_term m) (msg_term m2)))
                  [m2] A_R_SIGMA2
       end
   end.
@@ -613,6 +619,13 @@ Definition init_sent (st : node) (s : istate) (delivered : bool) : node * istate
   | _ => (st, s)
   end.
 
+(** the Sigma3 of fabric [f] ([compute_sigma3_signature], [sigma3_encrypt]) *)
+Definition build_sigma3 (f : fabric) (own_pub rpub s1 s2 shared : term) : msg :=
+  let sig3 := TSig (TKey (f_sk f)) (tbs (f_noc f) (f_icac f) own_pub rpub) in
+  let tbe := TAead (s3k (f_ipk f) (h12 s1 s2) shared) (TNum NONCE_S3)
+                   (tbe3_plain (f_noc f) (f_icac f) sig3) in
+  mkMsg OP_SIGMA3 [mkField 1 KBytes tbe] true.
+
 (** Sigma2 received: steps 5-7 of [perform] *)
 Definition init_sigma2 (st : node) (c : ictx) (m : msg) : iout :=
   let quiet arm := mkIout (release st (ic_slot c)) (IDone false) [] arm in
@@ -647,10 +660,7 @@ Definition init_sigma2 (st : node) (c : ictx) (m : msg) : iout :=
                           then fail A_I_S2_SIG else
                           match cats_of noc with
                           | Ok cats =>
-                              let sig3 := TSig (TKey (f_sk f)) (tbs (f_noc f) (f_icac f) (ic_pub c) rpub) in
-                              let tbe := TAead (s3k (f_ipk f) (h12 (ic_s1 c) s2) shared) (TNum NONCE_S3)
-                                               (tbe3_plain (f_noc f) (f_icac f) sig3) in
-                              let m3 := mkMsg OP_SIGMA3 [mkField 1 KBytes tbe] true in
+                              let m3 := build_sigma3 f (ic_pub c) rpub (ic_s1 c) s2 shared in
                               mkIout st (IAwaitStatus (mkIctx2 c s2 (msg_term m3) shared cats rid))
                                      [m3] A_I_SIGMA3
                           | _ => fail A_I_S2_CATS
